@@ -176,7 +176,18 @@ func runC04(c *ShardCtx) {
 					}
 					g := &peg.Grammar{Rules: []*peg.Rule{{Name: "S", Expr: root}}}
 					if len(peg.RefsOf(lab)) > 0 {
-						g.Rules = append(g.Rules, &peg.Rule{Name: "L", Expr: peg.Action(0, peg.Seq(peg.Label("x", peg.Lit("a")), peg.Label("w", peg.Opt(peg.Lit("b")))))})
+						// the leaf rule (inlined by -optimize-grammar): with labels of its own, or with blocks
+						// but NO label (its blocks must not receive labels of the rule it is inlined into)
+						var lx *peg.Expr
+						switch li % 4 {
+						case 0, 2:
+							lx = peg.Action(0, peg.Seq(peg.Label("x", peg.Lit("a")), peg.Label("w", peg.Opt(peg.Lit("b")))))
+						case 1:
+							lx = peg.Action(0, peg.Seq(peg.AndCode(0), peg.Lit("a")))
+						case 3:
+							lx = peg.Seq(peg.Lit("a"), peg.StateCode(0), peg.Opt(peg.Action(0, peg.Lit("b"))))
+						}
+						g.Rules = append(g.Rules, &peg.Rule{Name: "L", Expr: lx})
 					}
 					peg.Renumber(g, 1)
 					peg.AssignArgs(g)
